@@ -60,6 +60,20 @@ def check_term(acc: Acc, cls: str, p, h: float, ys: list[float]) -> None:
     if np.shape(z1) != arr.shape or np.shape(z2) != (1, len(ys)):
         acc.violate("array-shape", {"term": cls}, case0, arr.shape, [np.shape(z1), np.shape(z2)], "shape not preserved")
         return
+    # single / half precision degree arrays are the same degrees as their double-precision values
+    for dtype in (np.float32, np.float16):
+        narrow = arr.astype(dtype)
+        wide = narrow.astype(np.float64)
+        ok_rows = (wide > 0.0) & (wide < h)
+        zn, zw = np.asarray(term.tsukamoto(narrow), dtype=float), np.asarray(term.tsukamoto(wide), dtype=float)
+        scale = max(1.0, max(abs(v) for v in p if math.isfinite(v)))
+        bad = ~np.isclose(zn, zw, rtol=0, atol=1e-12 * scale, equal_nan=True) & ok_rows if zn.shape == zw.shape else np.array([True])
+        if bad.any():
+            k = int(np.argmax(bad))
+            acc.violate("array-kind", {"term": cls, "operand": np.dtype(dtype).name}, {**case0, "y": float(wide[k]) if zn.shape == zw.shape else ys[0]},
+                        float(zw[k]) if zn.shape == zw.shape else list(zw.shape), float(zn[k]) if zn.shape == zw.shape else list(zn.shape),
+                        f"{cls}{p} h={h}: tsukamoto of a {np.dtype(dtype).name} array differs from the same degrees in double precision")
+            break
     back = term.membership(z1)
     d = R.direction(cls, p)
     scale = max(abs(v) for v in p) + 1.0
